@@ -29,8 +29,9 @@ Fixpoint ddel (l : list dfrom) (d : Z) : list dfrom :=
 
 Inductive xentry :=
 | XCreate (a : Z)
-| XUpdate (a : Z) (nw old : xval).
-Definition xentry_addr (e : xentry) : Z := match e with XCreate a => a | XUpdate a _ _ => a end.
+| XUpdate (a : Z) (nw old : xval)
+| XDelete (a : Z) (old : xval).
+Definition xentry_addr (e : xentry) : Z := match e with XCreate a => a | XUpdate a _ _ => a | XDelete a _ => a end.
 
 Definition xacct := (Z * list Z)%type.   (* delegation balance, delegation list *)
 
@@ -89,6 +90,14 @@ Definition c_update (c : acore) (a : Z) (u : upd) : eff :=
   | Some (old, l) => (c_update_validator c a (apply_upd old u, l) (old, l), [], [XUpdate a (apply_upd old u, l) (old, l)])
   end.
 
+(* RemoveValidator of an existing validator *)
+Definition c_remove (c : acore) (a : Z) : eff :=
+  match aget (xs c) a with
+  | None => (c, [], [])
+  | Some (v, l) =>
+    (c_stat (c_index (c_xs c (adel (xs c) a)) (srem a (xindex c))) (a_decr (xstat c) v), [], [XDelete a (v, l)])
+  end.
+
 Definition c_fund (c : acore) (d : Z) : eff :=
   match aget (xaccts c) d with
   | Some _ => (c, [JBal d], [])
@@ -144,6 +153,9 @@ Definition c_vundo1 (c : acore) (e : xentry) : acore :=
   | XUpdate a nw old =>
     let c1 := c_set_validator c a old in
     c_stat c1 (a_adjust (xstat c1) (fst old) (fst nw))
+  | XDelete a old =>
+    let c1 := c_set_validator c a old in
+    c_stat c1 (a_incr (xstat c1) (fst old))
   end.
 
 Definition c_aundo1 (c : acore) (e : aentry) : acore :=
@@ -223,7 +235,7 @@ Definition a_step (s : astate) (o : op) : astate :=
   | OFund d => a_push s (c_fund (core s) d)
   | OCreate a role status token stake => a_push s (c_create (core s) a role status token stake)
   | OUpdate a u => a_push s (c_update (core s) a u)
-  | ORemove _ => s
+  | ORemove a => a_push s (c_remove (core s) a)
   | ODelegate d a amt => a_push s (c_delegate (core s) d a amt)
   | OSnapshot => a_snapshot s
   | ORevert id => a_revert s id
@@ -243,11 +255,6 @@ Definition upd_ok (old : val) (u : upd) : bool :=
   && Z.eqb (u_stake u) (v_stake old + (u_sstake u - v_sstake old))
   && Z.leb 0 (u_rdist u) && Z.leb 0 (u_rtotal u).
 
-(* a validator that IsInvalid() deletes although it still holds tokens
-   (Token and Stake both multiples of 2^64, not both zero) *)
-Definition truncated_invalid (v : val) : bool :=
-  is_invalid v && negb (Z.eqb (v_token v) 0 && Z.eqb (v_stake v) 0).
-
 Definition a_pre (s : astate) (o : op) : bool :=
   match o with
   | OCreate a role status token stake =>
@@ -263,7 +270,8 @@ Definition a_pre (s : astate) (o : op) : bool :=
        && Z.leb 0 (match dget l d with Some e => d_token e | None => 0 end + amt))
     end
   | ORevert id => match aget (xrevs s) id with Some _ => true | None => false end
-  | ORoot | OCommitReload =>
-    forallb (fun p => negb (truncated_invalid (fst (snd p)))) (xs (core s))
+  | ORemove a =>
+    (* RemoveValidator has no business check: the caller removes only validators without delegations *)
+    match aget (xs (core s)) a with Some (_, []) => true | Some _ => false | None => true end
   | _ => true
   end.
